@@ -530,7 +530,10 @@ def supporting(chk, P):
         pushes = [canon(P.call_arg_terms(psb, bb)[0]) for bb, t in psb.calls() if callee_name(t)[0] == "std::vec::Vec::push"]
         chk.require(len(pushes) >= 6 and set(pushes) == {"Vec::new()"}, "ORD", "ORD:parser:statements-appended-in-order", "%d block.push sites" % len(pushes), "statements pushed into %s" % sorted(set(pushes)))
         r = set()
-        for (cb, bb, i, st) in P.constructors("std::result::Result::Ok"):
-            if cb is psb:
-                r.add(canon(P.sl(cb).rvalue(st["rv"], bb, i)[3][0][1]))
+        for rb in P.cfg(psb).return_blocks():   # the Ok values that reach the function's return place
+            rt = terms.strip(P.resolve(psb, P.sl(psb).ret(rb)))
+            for alt in (rt[1] if rt[0] == "phi" else (rt,)):
+                alt = terms.strip(alt)
+                if alt[0] == "agg" and alt[1] == "adt" and str(alt[2]).endswith("Result::Ok"):
+                    r.add(canon(alt[3][0][1]))
         chk.require(r == {"Vec::new()"}, "ORG", "ORG:parser:block-returned", "Ok(block)", "parse_stmt_block returns %s" % r)
